@@ -15,12 +15,13 @@
   The hypotheses of each `<x>_session_accepted` are the container's guards and the complement of its known-finding classes
   (`G`), asked of the job, of the reference run and of every prefix (crash image).
 -/
-import SfProofs.AbsWriteBridgeSmall2
+import SfProofs.AbsWriteBridgeSmall1
 import SfProps.C04Wve
 import SfProps.C04Mat4
 import SfProps.C04Mpc2k
 import SfProps.C04Htk
 import SfProps.C04Pvf
+import SfProps.C04Avr
 namespace Sf.C04Bridge
 open Sf Sf.AbsWrite Sf.AbsWriteBridge
 open Sf.AbsWriteBridge.Small (Cont Laws Valid small2Cont laws_of_small2 small2_machine_facts small_pred_good)
@@ -263,6 +264,54 @@ theorem pvf_session_accepted (c : Pvf.Cfg) (hwf : c.wf) (ty : Ty) (stale stale' 
     (hk : ∀ p post, ops = p ++ post → ¬ (Pvf.hdr c).length + (Small.sampleList p).length * (encFor c.codec true).nbytes < 12) :
     accepted (Small.recordOf (small2Cont (Pvf.fmt c) Pvf.parse (pvfGeom c) (encFor c.codec true)) ty stale stale' ops) = true :=
   small2_session_accepted _ _ _ _ _ (pvf_facts c hwf) ty stale stale' ops hv hk
+
+/-! ## AVR (PCM_S8 / PCM_U8 / PCM_16 big endian, one or two channels; the `Sf.Small` session machine) -/
+
+def avrGeom (c : Avr.Cfg) : AbsWrite.Geom := { word := c.endian * 0x10000000 + 0x120000 + c.codec, ch := c.ch, sr := c.sr }
+
+theorem avr_facts (c : Avr.Cfg) (hwf : c.wf) :
+    Small.Small1Facts (Avr.spec c) Avr.parse (avrGeom c) (encFor c.codec true) (fun _ => True) := by
+  obtain ⟨m1, m2, m3⟩ := Small.small1_machine_facts (Avr.spec c) (Avr.spec_lenOk c) rfl rfl
+  obtain ⟨hacc, hch1, hsr1, hsr2⟩ := hwf
+  have hacc' : (c.codec = 0x01 ∨ c.codec = 0x02 ∨ c.codec = 0x05) ∧ (c.endian = 0 ∨ c.endian = 2) ∧ c.ch ≤ 2 := by
+    simpa [Avr.accepted] using hacc
+  obtain ⟨hcd, hend, _⟩ := hacc'
+  have hcodec : (avrGeom c).codec = c.codec := by
+    show (c.endian * 0x10000000 + 0x120000 + c.codec) % 0x10000 = c.codec
+    rcases hcd with h | h | h <;> omega
+  have hmajor : (avrGeom c).major = 0x12 := by
+    show (c.endian * 0x10000000 + 0x120000 + c.codec) / 0x10000 % 0x1000 = 0x12
+    rcases hcd with h | h | h <;> omega
+  have henc : encOf .raw c.codec true = some (encFor c.codec true) := by
+    unfold encFor; rcases hcd with h | h | h <;> rw [h] <;> simp [encOf]
+  have hnbw : (encFor c.codec true).nbytes = c.bytewidth := by
+    unfold encFor Avr.Cfg.bytewidth; rcases hcd with h | h | h <;> rw [h] <;> simp [encOf, Enc.nbytes, PcmFmt.nbytes]
+  obtain ⟨hnb, hewf⟩ := encOf_props _ _ _ _ henc
+  have hwf' : c.wf := ⟨hacc, hch1, hsr1, hsr2⟩
+  have hfmt : c.fmtWord % 0x10000000 = (avrGeom c).word % 0x10000000 := by
+    show (0x120000 + c.codec) % 0x10000000 = (c.endian * 0x10000000 + 0x120000 + c.codec) % 0x10000000
+    rcases hcd with h | h | h <;> omega
+  refine { chpos := hch1, nb := hnb, wf := hewf,
+           block := C04.frames_bound_granular _ _ _ _
+             (by rw [hcodec]; rcases hcd with h | h | h <;> rw [h] <;> simp [Geometry.sampleGranular])
+             (by rw [hmajor]; simp),
+           notRaw := by rw [hmajor]; simp, codec := ⟨_, by rw [hcodec]; exact henc⟩,
+           snapForm := m1, closedForm := m2, closedFn := m3, closedParse := ?_, snapParse := ?_ }
+  · intro st ops _
+    refine ⟨_, C04Avr.avr_reopen_info c hwf' st _, ?_, rfl, hfmt, ?_⟩
+    · show (Sf.Small.opsData (Small.toS1 ops)).length / c.bw = _
+      rw [Small.opsData_toS1, hnbw]; rfl
+    · show rateOk (avrGeom c).major c.sr ((c.sr : Nat) : Int) = true
+      rw [hmajor]; simp [rateOk, rateClass]
+  · intro st w _
+    obtain ⟨h1, _⟩ := C04Avr.avr_snapshot_valid c hwf' st w
+    exact ⟨_, h1, by show _ / c.bw = _; rw [hnbw]; rfl, rfl, hfmt⟩
+
+/-- AVR: every job of whole frames is accepted — no guard, no class -/
+theorem avr_session_accepted (c : Avr.Cfg) (hwf : c.wf) (ty : Ty) (stale stale' : Nat) (ops : List Small.Op)
+    (hv : Valid c.ch ty ops) :
+    accepted (Small.recordOf (Small.small1Cont (Avr.spec c) Avr.parse (avrGeom c) (encFor c.codec true)) ty stale stale' ops) = true :=
+  cont_session_accepted _ _ (Small.laws_of_small1 (avr_facts c hwf)) ty stale stale' ops hv trivial (fun _ _ _ => trivial)
 
 /-! ## non-vacuity: a stereo MAT4 16-bit job (frames call, update, auto mode, items call), evaluated -/
 
